@@ -229,9 +229,14 @@ def effectivePragma (o : Opts) (env : Env) : Option String :=
     match cs.findSome? (fun c => (Text.pragmaOfComment c.toList).map String.ofList) with
     | some p => some p
     | none => acc) none
-  match fromComments with
-  | some p => some p
-  | none => o.pragma
+  -- a name that is not an identifier (or identifiers joined by dots) names no factory: the statement speaks of "that identifier";
+  -- C07 demands that such a pragma is REPORTED (and Vue's createVNode is what remains)
+  let chosen := match fromComments with
+    | some p => some p
+    | none => o.pragma
+  match chosen with
+  | some p => if isValidPragma p then some p else none
+  | none => none
 
 def hasModelAttr (v : Node) : Bool := v.atoms.contains "model"
 
@@ -242,6 +247,13 @@ def featKey (base : String) (p : VPair) (feats : List String) : String :=
   | none => base
 
 def inDom (p : VPair) : Bool := !p.d.atoms.contains "dropped-duplicate" && !p.d.atoms.contains "ood-directive-value"
+
+/-- the name of the sole identifier child in a denoted children value (`slotcond x ..` or a wrapped default slot `[x]`) -/
+def soleIdentChildName (k : Node) : Option String :=
+  match k with
+  | .mk (.other "slotcond") _ (.mk .ident (n :: _) _ :: _) => some n
+  | .mk (.other "slots") _ (.mk (.other "p") ["default"] [.mk .arrow _ (_ :: .mk .array _ [.mk .list _ [.mk .arg _ [.mk .ident (n :: _) _]]] :: _)] :: _) => some n
+  | _ => none
 
 /-- the semantic oracles of C01–C05, on the implementation's output -/
 def oracleSem (prop : String) (o : Opts) (env : Env) (inN outN : Node) : Verdict :=
@@ -255,8 +267,13 @@ def oracleSem (prop : String) (o : Opts) (env : Env) (inN outN : Node) : Verdict
     judge sv vKids (fun p => !vIsComponent p.d && !hasOod (vKids p.d)) (fun _ => "children")
   else if prop == "C03" then
     judge sv vKids (fun p => vIsComponent p.d)
-      (fun p => if !(collect (fun x => x.kind == .other "captured") (vKids p.e)).isEmpty
-                then "slots/captured-temporary" else "slots")
+      (fun p =>
+        -- the recorded finding is exactly: the sole IDENTIFIER child `a` is replaced by the captured copy `_a`;
+        -- a captured copy of anything else (e.g. of a generated temporary that shares a user variable's name) is not it
+        let caps := (collect (fun x => x.kind == .other "captured") (vKids p.e)).map (fun x => x.atoms.headD "")
+        match soleIdentChildName (vKids p.d) with
+        | some n => if !caps.isEmpty && caps.all (· == "_" ++ n) then "slots/captured-temporary" else "slots"
+        | none => "slots")
   else if prop == "C04" then
     match judge sv vDirs inDom (fun _ => "directives") with
     | .ok =>
@@ -453,6 +470,19 @@ end VueJsx
 /-! ### C20: only Vue's defineComponent is augmented, and the user's options always win -/
 namespace VueJsx
 
+/-- the local bindings (name, binding class) that are Vue's defineComponent imported by name from 'vue' -/
+def vueDefineLocals (inN : Node) : List (String × String) :=
+  (collect (isKind .importDecl) inN).flatMap fun d =>
+    match d with
+    | .mk .importDecl _ (.mk .list _ specs :: .mk .str ("vue" :: _) _ :: _) =>
+      specs.filterMap fun s =>
+        match s with
+        | .mk .importSpec _ [.mk .ident (ln :: b :: _) _, imp] =>
+          let importedName := match imp with | .mk .ident (n :: _) _ => n | .mk .str (n :: _) _ => n | _ => ln
+          if importedName == "defineComponent" then some (ln, b) else none
+        | _ => none
+    | _ => []
+
 /-- binding classes of identifiers that are Vue's defineComponent imported by name from 'vue' -/
 def vueDefineBinds (inN : Node) : List String :=
   (collect (isKind .importDecl) inN).flatMap fun d =>
@@ -570,11 +600,12 @@ partial def alignOptions (outOps inOps : List PropOp) (userBefore : List PropOp)
 def argsOf (c : Node) : List Node := match c with | .mk .call _ [_, .mk .list _ args, _] => args | _ => []
 def calleeOfCall (c : Node) : Node := (c.kids.head?).getD nNone
 
-def c20Call (o : Opts) (vueBinds : List String) (decl : Option String) (ci co : Node) : Option (String × String) :=
+def c20Call (o : Opts) (vueLocals : List (String × String)) (decl : Option String) (ci co : Node) : Option (String × String) :=
   if shallowCallEq ci co then none else
-  -- the call was changed: it must be an augmentation that is allowed
+  -- the call was changed: it must be an augmentation that is allowed: the callee is exactly (name AND binding) a local that
+  -- imports `defineComponent` by name from 'vue' (a syntax context alone is shared by all top-level bindings of the module)
   let gateOk := o.resolveType && (match calleeOfCall ci with
-    | .mk .ident (n :: b :: _) _ => vueBinds.contains b && (n == "defineComponent" || true)
+    | .mk .ident (n :: b :: _) _ => vueLocals.contains (n, b)
     | _ => false)
   if !gateOk then some ("augmented-foreign-call", s!"call of {showN (calleeOfCall ci)} was changed: {showN co}") else
   let ai := argsOf ci
@@ -608,7 +639,7 @@ def stripInserted (out : Node) : Node := stripAll (rolesOfModule out) out
 def oracleC20 (o : Opts) (inN outN : Node) : Verdict :=
   let pairs := pairCalls inN (stripInserted outN) none
   let nIn := (collect (fun n => match n with | .mk .call ("usr" :: _) _ => true | _ => false) inN).length
-  let binds := vueDefineBinds inN
+  let binds := vueDefineLocals inN
   match pairs.findSome? (fun p => c20Call o binds p.1 p.2.1 p.2.2) with
   | some (k, d) => .fail k d
   | none =>
@@ -985,8 +1016,28 @@ def oracleC10 (mode : String) (a b : Node) : Verdict :=
         let idxOf (m : Node) (stmt : Node) : Nat := ((moduleItems m).findIdx? (fun s => canon (stripAll (rolesOfModule m) s) == canon stmt)).getD 0
         let pa := (genBindsOf x).map (declPlace a (idxOf a x))
         let pb := (genBindsOf y).map (declPlace b (idxOf b y))
-        if pa == pb then .ok
-        else .fail "declaration-placement-depends-on-context" s!"generated identifiers of the statement are declared {pa} alone but {pb} in context"
+        if pa != pb then
+          .fail "declaration-placement-depends-on-context" s!"generated identifiers of the statement are declared {pa} alone but {pb} in context"
+        else
+          -- binding identity: a module-level temporary the statement uses must not be mentioned by any OTHER statement (alone it
+          -- never is); the statement's slot functions read the temporary lazily, so sharing it makes its value depend on other code
+          let tempBinds (m : Node) : List String := (moduleItems m).flatMap fun s =>
+            match s with
+            | .mk .varDecl _ [.mk .list _ decls] =>
+              decls.filterMap fun d => match d with
+                | .mk .declarator _ (.mk .ident (_ :: bnd :: _) _ :: _) => if isGenBind bnd then some bnd else none
+                | _ => none
+            | _ => []
+          let mentions (bnd : String) (s : Node) : Bool :=
+            !(collect (fun z => match z with | .mk .ident (_ :: b2 :: _) _ => b2 == bnd | _ => false) s).isEmpty
+          let shared (m : Node) (stmt : Node) (idx : Nat) : List Nat :=
+            let users := moduleItems (stripInserted m)
+            let temps := tempBinds m
+            ((genBindsOf stmt).filter temps.contains).map fun bnd => ((users.eraseIdx idx).filter (mentions bnd)).length
+          let sa := shared a x si.toNat!
+          let sb := shared b y sj.toNat!
+          if sa == sb then .ok
+          else .fail "temporary-shared-with-other-code" s!"other statements mentioning each module-level temporary of the statement: alone {sa}, in context {sb}"
       | some (path, p, q) =>
         let caps := (capturedRoles b).map (·.1)
         let cap := !(collect (fun n => match n with | .mk .ident (_ :: bnd :: _) _ => caps.contains bnd | _ => false) y).isEmpty
@@ -1169,7 +1220,13 @@ def defaultsJudge (reg : St) (v : DcView) : Option (String × String) :=
     | some (entries, merged), .ok spec =>
       let static := match d with | .mk .object _ [.mk .list _ ps] => allStaticSpec ps | _ => none
       match static, merged with
-      | none, some dd => if canon dd == canon d then none else some ("mergeDefaults-argument", showN dd)
+      | none, some dd =>
+        if canon dd != canon d then some ("mergeDefaults-argument", showN dd)
+        else
+          -- the declarations handed to mergeDefaults carry no default of their own (nobody wrote one for THIS call)
+          match carrying entries with
+          | [] => none
+          | ks => some ("merged-declarations-carry-defaults", s!"the declarations handed to mergeDefaults already carry a `default` for {ks}")
       | none, none => some ("dynamic-defaults-not-merged", s!"the default {showN d} is not statically analysable but mergeDefaults was not used")
       | some _, some _ => some ("static-defaults-merged-at-runtime", "statically known defaults were passed to mergeDefaults")
       | some ds, none =>
@@ -1184,8 +1241,31 @@ def defaultsJudge (reg : St) (v : DcView) : Option (String × String) :=
           | some w, none => some ("default-missing", s!"prop {keyText p.key}: expected {showN w}")
           | none, some g => some ("default-invented", s!"prop {keyText p.key}: {showN g}")
     | _, _ => none
+  | some _, none =>
+    -- no default written for the props parameter: no prop receives a `default`, and nothing goes through mergeDefaults
+    if v.userKeys.contains "props" then none else
+    match (optionValue v.outOpts "props").bind propsObjectOf with
+    | some (entries, merged) =>
+      if merged.isSome then some ("mergeDefaults-without-a-written-default", "the props parameter has no default but the props go through mergeDefaults")
+      else
+        match carrying entries with
+        | [] => none
+        | ks => some ("default-without-a-written-default", s!"the props parameter has no default, yet props {ks} received a `default`")
+    | none => none
   | _, _ => none
 where
+  /-- the declared props that carry a `default` entry (in any spelling) -/
+  carrying (entries : List Node) : List String :=
+    entries.filterMap fun e =>
+      match e with
+      | .mk .kv _ [k, .mk .object _ [.mk .list _ fs]] =>
+        if fs.any (fun f => match f with
+            | .mk .kv _ (fk :: _) => staticKeyOf fk == some "default"
+            | .mk .methodProp _ (fk :: _) => staticKeyOf fk == some "default"
+            | .mk .getterProp _ (fk :: _) => staticKeyOf fk == some "default"
+            | .mk .ident ("default" :: _) _ => true
+            | _ => false) then some (keyText k) else none
+      | _ => none
   /-- statically known defaults: (key name, written form) -/
   allStaticSpec (ps : List Node) : Option (List (String × Node)) :=
     ps.foldl (fun acc p =>
